@@ -30,7 +30,8 @@ def harvest(wt, name, prop):
     feats = "--features multi-thread,interpreter"
     ran = []
     def run(label, cmd, expect_ok):
-        rc, o = sh(cmd, cwd=wt)
+        rc, o = sh(cmd.split(" 2>&1")[0], cwd=wt)
+        o = "\n".join(o.splitlines()[-40:])
         ok = (rc == 0) == expect_ok
         tail = [l for l in o.splitlines() if l.startswith("test result") or "panicked" in l or "error" in l.lower()][:6]
         ran.append({"what": label, "cmd": cmd, "rc": rc, "as_expected": ok, "tail": tail})
@@ -38,16 +39,18 @@ def harvest(wt, name, prop):
         return ok
     good = True
     # keep the demo out of the way while running the existing suite
-    good &= run("existing tests pass with the change (default features)", "cargo test --offline --lib --doc 2>&1 | tail -30", True)
+    good &= run("existing unit tests pass with the change (default features)", "cargo test --offline --lib", True)
+    good &= run("existing doc tests pass with the change (default features)", "cargo test --offline --doc", True)
     good &= run("crate builds with all features", f"cargo build --offline {feats} 2>&1 | tail -5", True)
     good &= run("existing tests pass with the change (all features)", f"cargo test --offline --lib {feats} 2>&1 | tail -30", True)
     if os.path.exists(demo):
         import shutil
         shutil.copy(demo, os.path.join(out, "demo_mutation.rs"))
         good &= run("demo fails with the change", f"cargo test --offline {feats} --test demo_mutation 2>&1 | tail -30", False)
-        sh("git stash push -q -- src", cwd=wt)
+        # (no git stash: the stash is shared by all worktrees of the repository)
+        sh(["git", "apply", "-R", os.path.join(out, "patch.diff")], cwd=wt)
         good &= run("demo passes without the change", f"cargo test --offline {feats} --test demo_mutation 2>&1 | tail -30", True)
-        sh("git stash pop -q", cwd=wt)
+        sh(["git", "apply", os.path.join(out, "patch.diff")], cwd=wt)
     else:
         good = False
         print("no demo file")
